@@ -4,3 +4,5 @@ pub mod exprgen;
 pub mod gen;
 pub mod mval;
 pub mod props;
+pub mod stmt;
+pub mod stmtgen;
